@@ -133,3 +133,13 @@ package linkedliststack
 //@   ensures [C12] atomic: result != nil ==> Seq(stack) == old(Seq(stack))
 //@   ensures [C11 C12] loaded: jarr_kind(bytes, stack.list.first.value) == 3 ==> len(Seq(stack)) == jarr_len(bytes, stack.list.first.value) && (forall i :: 0 <= i && i < len(Seq(stack)) ==> Seq(stack)[i] == jarr_at(bytes, i, stack.list.first.value))
 //@   ensures [C12] null: jarr_kind(bytes, stack.list.first.value) == 2 ==> len(Seq(stack)) == 0
+
+//@ -- String: starts with the container's name; reads only (C15, C18)
+//@ func Stack.String
+//@   requires Inv(stack)
+//@   modifies nothing
+//@   ensures [C15 C17 C18] hasPrefix(result, "LinkedListStack")
+//@   loop 1:
+//@     invariant 0 - 1 <= rangeindex && rangeindex < rangelen && (rangelen == 0 ==> rangeindex == 0 - 1) && rangelen >= 0
+//@     invariant isnil(values) || fresh(arr(values))
+//@     decreases rangelen - rangeindex
